@@ -48,7 +48,10 @@ fn forest(hole_of: [i32; 3]) -> Forest {
 fn nest_cases_body(shape: [i32; 3]) {
     let mut f = forest(shape);
     let ev = seg_c(c(1., 1.), c(3., 1.), true, 1);
-    let lower = seg_c(c(0., 0.), c(4., 0.), true, 1);
+    // the lower result edge passes below the new contour's first vertex, or leaves from that very vertex
+    // (a hole touching its parent, or two holes touching, at their common leftmost vertex)
+    let same_vertex: bool = kani::any();
+    let lower = seg_c(if same_vertex { c(1., 1.) } else { c(0., 0.) }, c(4., 0.), true, 1);
     let has_lower: bool = kani::any();
     let lower_id: i32 = kani::any();
     kani::assume(lower_id >= 0 && lower_id < 3);
@@ -91,6 +94,7 @@ fn nest_cases_body(shape: [i32; 3]) {
     unchanged!(2);
     kani::cover!(has_lower && out_in && f.hole_of[li] < 0, "above an exterior, inside: hole of it");
     kani::cover!(has_lower && !out_in, "above an InOut edge: exterior");
+    kani::cover!(has_lower && out_in && same_vertex, "lower edge leaves from the contour's own first vertex");
     kani::cover!(!has_lower, "nothing below");
     std::mem::forget((f.v, ev, lower, cnt));
 }
